@@ -147,3 +147,12 @@ CLAIMS["C17"] = {
     "note": "Known finding (printed as KNOWN-FINDING, excluded from the generator for that variant, re-checked by a probe): newrelic flush-type metrics emits sets without type and value. Representation choices that are documented or inherent (newrelic numeric tag values, histogram buckets as counters with a zero rate, sources not transmitted by influxdb/cloudwatch/graphite basic) are modelled, not asserted against.",
     "technique": "property-based testing (rapid): independent protocol decoders + multiset conservation oracle; round trip of the relay through the system's own parser",
 }
+
+CLAIMS["C15"] = {
+    "text": "A real HttpForwarderHandlerV2 (1..4 consolidator slots, concurrent-merge 1..3, max-requests 1..4, compression none/zlib/lz4, dynamic header names from {region, service} in timer mode, timer-driven through a harness-owned ticker or manual through the real flush coordinator, retries disabled or a 2 s window) "
+            "receives maps of identifiable datapoints (unique timer values and set members, one bit per counter datapoint, gauges with a companion value) from 1..4 concurrent dispatcher goroutines in phases; flushes are triggered while further dispatches may run concurrently; per-body upstream scripts answer 2xx / 503 / 400 / transport error / slowly. "
+            "Every request body is decoded at the transport and judged: the distinct bodies together equal what was dispatched with no datapoint in two bodies; data dispatched before a flush is in that flush's bodies, data dispatched during it in that or the next; an identical body is never re-sent after a 2xx and never given up inside the retry window; "
+            "each series travels in exactly one request whose dynamic headers equal its tag values; http.forwarder.created/sent/retried/dropped/invalid equal the tallies seen upstream; Run returns after cancellation (all semaphore tokens returned). Exploration; part of the thorough tier runs under the race detector.",
+    "note": "Known finding (probe + KNOWN-FINDING line): a tag that is not valid UTF-8 makes the merged batch unencodable and every client's datapoints of that flush are discarded. Real-time retry sleeps bound the number of fault cases. Needs the verif-tagged flush coordinator re-export for the manual mode.",
+    "technique": "property-based testing (rapid) of the concurrent forwarder with a conservation / attribution / retry-discipline oracle over decoded request bodies",
+}
